@@ -25,6 +25,9 @@ pub enum SeekFrom { Start(u64), End(i64), Current(i64) }
 impl File {
     pub uninterp spec fn trace(&self) -> Seq<IoEv>;
     pub uninterp spec fn pos(&self) -> u64;         // current offset
+    // how many bytes of the LAST FAILED write_all reached the file before the error (a short write followed by an error;
+    // anything from 0 up to the buffer length minus one; nothing is promised about it)
+    pub uninterp spec fn short_prefix(&self) -> nat;
     pub uninterp spec fn len(&self) -> u64;         // current length
     // a fact that only grows while the handle lives (the code never truncates): the file is at least n bytes long
     pub uninterp spec fn allocated_at_least(&self, n: u64) -> bool;
